@@ -589,8 +589,9 @@ func (c *VirtualTable) Insert(ctx context.Context, values map[int]interface{}) (
 		new.ColumnValues[colName] = &v1proto.ColumnValue{Value: toSQLiteValue(v)}
 		dbg("SET %d %v=%v\n", i, key, v)
 	}
-	merged := MergeRows(key, ot, old, t, &new, t)
-	err = c.Tree.Root.Set(ctx, t, NewKey(key), merged)
+	mt := laterOf(ot, t)
+	merged := MergeRows(key, ot, old, t, &new, mt)
+	err = c.Tree.Root.Set(ctx, mt, NewKey(key), merged)
 	if err != nil {
 		return 0, fmt.Errorf("set: %w", err)
 	}
@@ -625,8 +626,9 @@ func (c *VirtualTable) Update(ctx context.Context, key interface{}, values map[i
 		colName := c.ColumnNameByIndex[i]
 		new.ColumnValues[colName] = ToColumnValue(v)
 	}
-	merged := MergeRows(key, ot, old, t, &new, t)
-	err = c.Tree.Root.Set(ctx, t, NewKey(key), merged)
+	mt := laterOf(ot, t)
+	merged := MergeRows(key, ot, old, t, &new, mt)
+	err = c.Tree.Root.Set(ctx, mt, NewKey(key), merged)
 	if err != nil {
 		return fmt.Errorf("set: %w", err)
 	}
@@ -645,8 +647,9 @@ func (c *VirtualTable) Delete(ctx context.Context, key interface{}) error {
 	}
 	t := updateTime(ctx)
 	new.Deleted = true
-	merged := MergeRows(key, ot, old, t, &new, t)
-	err = c.Tree.Root.Set(ctx, t, NewKey(key), merged)
+	mt := laterOf(ot, t)
+	merged := MergeRows(key, ot, old, t, &new, mt)
+	err = c.Tree.Root.Set(ctx, mt, NewKey(key), merged)
 	if err != nil {
 		return fmt.Errorf("set: %w", err)
 	}
@@ -944,6 +947,18 @@ func Vacuum(ctx context.Context, tableName string, beforeTime time.Time) error {
 	}
 
 	return nil
+}
+
+// laterOf gives the modification time for a row written at write time t
+// over an entry last modified at ot. The entry layer keeps whichever value
+// has the later modification time, so a statement whose write_time is older
+// than the row's last change must not be stored under its own time: the
+// whole row would be discarded instead of being merged column by column.
+func laterOf(ot, t time.Time) time.Time {
+	if ot.After(t) {
+		return ot
+	}
+	return t
 }
 
 func updateTime(ctx context.Context) time.Time {
